@@ -184,11 +184,16 @@ def swFullLight : List (Text × Nat) → Text → Bool
     else if c.isPrefixOf ro then swFullLight cs (ro.drop c.length)
     else false
 
-/-- Full × Full: compares bytes (fix F6) -/
+/-- the `while remaining_other.is_empty()` refill: the next non-empty piece of the argument (fix F14) -/
+def nextNonEmpty : List (Text × Nat) → Option (Text × List (Text × Nat))
+  | [] => none
+  | (c, _) :: os' => if c.isEmpty then nextNonEmpty os' else some (c, os')
+
+/-- Full × Full: compares bytes (fix F6), skipping empty pieces of the argument (fix F14) -/
 def swFullFull : Nat → Text → Text → List (Text × Nat) → List (Text × Nat) → Bool
   | 0, _, _, _, _ => false
   | fuel + 1, rs, ro, ss, os =>
-    match (if ro.isEmpty then (match os with | [] => none | (c, _) :: os' => some (c, os')) else some (ro, os)) with
+    match (if ro.isEmpty then nextNonEmpty os else some (ro, os)) with
     | none => true
     | some (ro, os) =>
       match (if rs.isEmpty then (match ss with | [] => none | (c, _) :: ss' => some (c, ss')) else some (rs, ss)) with
